@@ -116,13 +116,13 @@ Proof.
   unfold select_port. destruct (Z.eqb_spec p 0), (Z.eqb_spec o 0), pref; cbn; repeat split; intros; try congruence; try tauto.
 Qed.
 
-Lemma responder_spec c w : responder true c w = PierceSent \/ responder true c w = CannotConnectReported.
-Proof. destruct c, w; cbn; tauto. Qed.
+Lemma responder_spec ex c w : responder ex true c w = PierceSent \/ responder ex true c w = CannotConnectReported.
+Proof. destruct ex, c, w; cbn; tauto. Qed.
 
-Lemma responder_pierce_iff so c w : responder so c w = PierceSent <-> (c = RcOk /\ w = RsOk).
+Lemma responder_pierce_iff ex so c w : responder ex so c w = PierceSent <-> (c = RcOk /\ w = RsOk).
 Proof.
-  destruct so, c, w; cbn; unfold RESPONDER_REPORTS_WRITE_FAILURE; cbn; split; intros; try discriminate; try tauto; destruct H; discriminate.
+  destruct ex, so, c, w; cbn; unfold RESPONDER_REPORTS_WRITE_FAILURE; cbn; split; intros; try discriminate; try tauto; destruct H; discriminate.
 Qed.
 
-Lemma responder_write_failure : responder true RcOk RsFail = CannotConnectReported.
-Proof. reflexivity. Qed.
+Lemma responder_write_failure ex : responder ex true RcOk RsFail = CannotConnectReported.
+Proof. destruct ex; reflexivity. Qed.
